@@ -285,6 +285,11 @@ pub enum InputMutation {
     /// re-encode with the last frame followed by a second copy of garbage of the same length:
     /// twice the right size, so it still divides evenly between the players
     DoubleSize,
+    /// an invalid payload (`garbage`: 0 = frames of the wrong size, 1 = truncated encoding,
+    /// 2 = not an encoding at all) that carries an acknowledgement `ack_delta` frames beyond the
+    /// genuine one and, optionally, a connection status declaring a player disconnected: a
+    /// dropped packet must not be half applied
+    Piggyback { garbage: u8, ack_delta: i32, disconnect_player: Option<usize>, last_frame: i32 },
 }
 
 #[derive(Serialize, Deserialize, Clone, Debug, PartialEq)]
